@@ -129,6 +129,42 @@ std::string workload(CDNS::FilePreamble& shared_fp, int id, int nrec, uint64_t s
     close(keep);
     std::string res = vh::digest(file) + "/" + vh::digest(acc);
     res += "/" + stale_descriptor(fp, id, rng, yrng, yields);
+    {   // one block holding many address-event keys: the order in which such a block is written and read back must not depend
+        // on the thread that does it (the keys live in a hash table)
+        int fd2 = memfd_create("thr-aec", 0);
+        int keep2 = dup(fd2);
+        {
+            CDNS::CdnsExporter exp2(fp, fd2, CDNS::CborOutputCompression::NO_COMPRESSION);
+            CDNS::BlockParameters bp2;
+            bp2.storage_parameters.max_block_items = 1000;
+            CDNS::index_t k2 = exp2.add_block_parameters(bp2);
+            exp2.set_active_block_parameters(k2);
+            exp2.write_block();
+            for (int j = 0; j < 48; j++) {
+                CDNS::GenericAddressEventCount a;
+                std::string ip(4, 0); ip[0] = 10; ip[1] = static_cast<char>(id); ip[2] = static_cast<char>(j); ip[3] = static_cast<char>(rng.next());
+                a.ip_address = ip; a.ae_type = static_cast<CDNS::AddressEventTypeValues>(j % 6);
+                exp2.buffer_aec(a);
+                if (yields && (yrng.next() & 15) == 0) sched_yield();
+            }
+            exp2.write_block();
+        }
+        std::string f2 = slurp(keep2);
+        close(keep2);
+        std::istringstream is2(f2);
+        std::string order;
+        try {
+            CDNS::CdnsReader reader(is2);
+            bool eof = false;
+            while (true) {
+                CDNS::CdnsBlockRead b = reader.read_block(eof);
+                if (eof) break;
+                bool end = false;
+                while (true) { auto a = b.read_generic_aec(end); if (end) break; order += vh::to_hex(a.ip_address) + ","; }
+            }
+        } catch (std::exception&) { order += "EXC"; }
+        res += "/aec:" + vh::digest(f2) + ":" + vh::digest(order);
+    }
     if (comp == 0) {        // read back (uncompressed outputs)
         std::istringstream is(file);
         CDNS::CdnsReader reader(is);
